@@ -62,6 +62,7 @@ namespace
               if(uc.op == U_SHRINK && bits == 0 && (uc.var % 5) > 1) continue;
               if(uc.op == U_SHRINK && bits == 0 && uc.var >= 5) continue;
               if(!alphabet_applies(uc.op, alphabet)) continue;                    // extreme magnitudes: selecting / single-entry operations only
+              if((uc.op == U_BANDW || uc.op == U_RADIUS) && (alphabet != 0 || bits == 0)) continue; // pattern reductions: exact alphabet; a matrix without entries ends in the recorded entry-free class (column variants transpose into an array-less matrix)
               if(alphabet == 3 && uc.op == U_SCALE && !scalars[uc.var % 7].dyadic) continue; // (denormal * 0.3 is not a rounding-bound statement)
               if(var.scenario != S_BASE && (bits == 0 || rep != 0)) continue;     // derived objects of matrices with entries
               if(!c.want()) continue;
@@ -408,6 +409,7 @@ int main(int argc, char** argv)
     "add_double_mat_product for all dims in {1,2}^4 (65536 pattern tuples for 2x2x2x2, double/u64; float/u32 up to 2^12 tuples per dims); (sanitizer build: up to 2^12 resp. 2^10 tuples per dims); incomplete & !allow_incomplete executions must die with SIGABRT (trapped in-process by a sigsetjmp handler; a deterministic 1/97 sample is repeated in a forked child and must agree)";
   spec.bounds_thorough = "quick + element-wise shapes 2x4,4x2,3x4,4x3,4x4(double) + products with one dimension 3 (up to 2^18 pattern tuples per dimension tuple) for (double,u64), all {1,2}^4 for (float,u32)";
   spec.assumptions = {
+    "coverage audit: bandwidth_row/column and radius_row/column added (matrices with entries; without entries the column variants transpose into an array-less matrix = recorded entry-free class); out of scope of C03 (other properties): apply (C01), transpose/permute/convert/layout constructors/set_line (C02), file I/O (C05), scatter/gather-axpy helper classes (C16), *_blocked_generic vector kernels (DenseVectorBlocked, C04), MKL/CUDA back ends", 
     "oracle: dense long double formulas written in the harness, restricted to the output pattern where entries are dropped (allow_incomplete)",
     "exact alphabet (position coded dyadic values) compared with ==; rounding alphabet, alpha=0.3, sqrt based norms: relative bound 8(terms+2) eps",
     "entry-free operands SparseMatrixCSR(m,n) (no arrays) are generated; element-wise cases run in a forked child, product cases under the in-process trap; a death by signal is reported under the key 'entry-free operand <op> [operand]'",
